@@ -50,6 +50,17 @@ const WEAK: u64 = ((1 << WEAK_WIDTH) - 1) << STRONG_WIDTH;
 const COUNT: u64 = 1;
 const WEAK_COUNT: u64 = 1 << STRONG_WIDTH;
 
+/// Converts a number of owners into an initial count or an increment, refusing what the count
+/// fields cannot represent: an overflow would carry into the neighbouring field or the flags and
+/// silently lose owners.
+pub(crate) fn checked_count(count: usize) -> u32 {
+    assert!(
+        count as u64 <= STRONG,
+        "too many references to one object"
+    );
+    count as u32
+}
+
 thread_local! {
     static DISPOSE_COUNTER: Cell<usize> = const { Cell::new(0) };
 }
@@ -195,6 +206,10 @@ impl<T> RcInner<T> {
             // were added separately, `try_destruct` could consume the permission in between and
             // the reference would then be mistaken for the permission of the next attempt.
             let add = if old.strong() == 0 { 2 } else { 1 };
+            assert!(
+                old.strong() as u64 + add as u64 <= STRONG,
+                "too many references to one object"
+            );
             vp!(INC_S_2);
             match self.state.compare_exchange(
                 old.as_raw(),
@@ -222,6 +237,12 @@ impl<T> RcInner<T> {
     pub(crate) fn increment_weak(&self, count: u32) {
         vp!(INC_W_LOAD);
         let mut old = State::from_raw(self.state.load(Ordering::SeqCst));
+        // The addition below is not conditional, so refuse while there is still ample room for
+        // the increments other threads may perform concurrently (as `std::sync::Arc` does).
+        assert!(
+            old.weak() as u64 + count as u64 <= (WEAK / WEAK_COUNT) / 2,
+            "too many weak references to one object"
+        );
         while !old.weaked() {
             // In this case, `increment_weak` must have been called from `Rc::downgrade`,
             // guaranteeing weak > 0, so it can’t be incremented from 0.
